@@ -424,7 +424,9 @@ class Analysis:
         k = b[0]
         if k == "cmp":
             op = b[1] if truth else NEG[b[1]]
-            out.append(("poly",) + fact_cmp(op, b[2], b[3]))
+            f = fact_cmp(op, b[2], b[3])
+            if not f[1].is_const():
+                out.append(("poly",) + f)
         elif k == "not":
             out.extend(self.cond_facts(b[1], not truth))
         elif k == "const":
@@ -906,10 +908,12 @@ class Analysis:
             if f[0] != "poly":
                 continue
             rel, p = f[1], f[2]
+            if p.is_const():
+                continue  # trivial facts carry no information (and would otherwise breed new ones forever)
             cands.add(f)
             if rel == ">=":
                 q = p + Poly.const(1)
-                if q.t:
+                if q.t and not q.is_const():
                     items = sorted(q.t.items(), key=lambda kv: repr(kv[0]))
                     if items[0][1] < 0:
                         q = -q
@@ -922,6 +926,8 @@ class Analysis:
         pa, pb = self.poly_facts(fa), self.poly_facts(fb)
         keep = set(common)
         for c in cands:
+            if c[2].is_const():
+                continue
             g = (c[1], c[2])
             if (c in fa or prove(g, pa, 120)) and (c in fb or prove(g, pb, 120)):
                 keep.add(c)
@@ -973,6 +979,51 @@ class Analysis:
                 st.mem[key] = ("V", "arg", i)
         return st
 
+    def _rpo(self):
+        """Reverse post-order numbering of the static CFG (all edges)."""
+        succs = {}
+        for i, blk in enumerate(self.blocks):
+            t = blk["term"]
+            out = []
+            for key in ("target", "otherwise"):
+                if t.get(key) is not None and isinstance(t.get(key), int):
+                    out.append(t[key])
+            for v, b_ in t.get("targets", []) if t["k"] == "switch" else []:
+                out.append(b_)
+            u = t.get("unwind")
+            if isinstance(u, dict):
+                out.append(u["cleanup"])
+            succs[i] = out
+        seen, order = set(), []
+        stack = [(0, iter(succs.get(0, [])))]
+        seen.add(0)
+        while stack:
+            n, it = stack[-1]
+            adv = False
+            for s_ in it:
+                if s_ not in seen:
+                    seen.add(s_)
+                    stack.append((s_, iter(succs.get(s_, []))))
+                    adv = True
+                    break
+            if not adv:
+                order.append(n)
+                stack.pop()
+        order.reverse()
+        return {b_: i for i, b_ in enumerate(order)}
+
+    def _is_phi_of(self, v, bb, depth=0):
+        """v mentions a phi atom created at block bb (anywhere inside the term)."""
+        if depth > 10:
+            return False
+        if isinstance(v, Poly):
+            return any(self._is_phi_of(a, bb, depth + 1) for a in v.atoms())
+        if isinstance(v, tuple):
+            if len(v) >= 2 and v[0] == "phi" and v[1] == bb:
+                return True
+            return any(self._is_phi_of(x, bb, depth + 1) for x in v if isinstance(x, (tuple, Poly)))
+        return False
+
     def _flags_only(self, st):
         mem = {}
         for k, v in st.mem.items():
@@ -986,13 +1037,17 @@ class Analysis:
         entry = self.entry_state()
         self.block_in = {0: entry}
         edge_out = {}  # (pred, idx) -> (succ, state)
+        widened = {}
+        recomputed = {}
+        rpo = self._rpo()
         work = [0]
         iters = 0
         while work:
             iters += 1
-            if iters > 4000:
+            if iters > 6000:
                 self.unknown.append(("fixpoint", None, "iteration bound"))
                 break
+            work.sort(key=lambda b_: rpo.get(b_, 1 << 30))
             bb = work.pop(0)
             outs = self.exec_block(bb, self.block_in[bb].copy(), False)
             if not self.blocks[bb]["cleanup"]:
@@ -1022,7 +1077,19 @@ class Analysis:
                 acc = incoming[0].copy()
                 for st in incoming[1:]:
                     acc, _ = self.join(succ, acc, st)
+                # widening: a cell that has once been merged into this block's phi stays merged (keeps the iteration monotone)
+                recomputed[succ] = recomputed.get(succ, 0) + 1
+                if recomputed[succ] > 40:
+                    w = widened.setdefault(succ, {})
+                    for k, v in list(acc.mem.items()):
+                        if self._is_phi_of(v, succ):
+                            w[k] = v
+                    for k, v in w.items():
+                        if k in acc.mem and acc.mem[k] != v:
+                            acc.mem[k] = v
                 prev = self.block_in.get(succ)
+                if prev is not None and len(incoming) > 1 and recomputed[succ] > 40:
+                    acc.facts = acc.facts & prev.facts  # delayed widening: facts at a merge point only shrink from here on
                 if prev is None or prev.mem != acc.mem or prev.facts != acc.facts:
                     self.block_in[succ] = acc
                     if succ not in work:
